@@ -216,7 +216,7 @@ def expected(case, services):
             # a Success/Warning-class code of some service class together with a dataset that cannot be sent: either
             # the code is echoed (dataset not applicable) or a failure is reported - not pinned by the documentation
             return [], False
-        if status in N_DATASET_STATUS.get(rtype, ()) and why in ("int", "ds-status", "ds-status+optional"):
+        if status in N_DATASET_STATUS.get(rtype, ()):
             if dsc == "dataset":
                 exp_ds = ds
                 if rtype == "N-CREATE" and not case.get("with_instance", True):
